@@ -886,7 +886,7 @@ pub fn judge_e2e(ctx: &Ctx, out: &crate::e2e::Outcome, truth: &std::collections:
     for e in out.table.as_array().cloned().unwrap_or_default() {
         if let (Some(la), Some(lo), Some(icao)) = (e["latitude"].as_f64(), e["longitude"].as_f64(), e["icao24"].as_str()) {
             let own = out.lines.iter().filter_map(|l| serde_json::from_str::<Value>(l).ok()).filter(|v| v["icao24"] == icao).filter_map(|v| v["frame"].as_str().and_then(|f| truth.get(f)).copied()).any(|(tla, tlo, _)| haversine_m(tla, tlo, la, lo) <= TOL_M);
-            if !own && truth.values().next().is_some() && icao != format!("{:06x}", crate::e2e::MARKER_ADDR) {
+            if !own && truth.values().next().is_some() && !crate::e2e::is_marker(&e["icao24"]) {
                 return Err(fail("table-position-not-the-aircraft's", format!("/all shows {icao} at ({la}, {lo}), which is not within 25 m of any position that aircraft reported")));
             }
         }
